@@ -31,8 +31,11 @@ def check(ctx, report):
         reviewed = json.load(f).get('C08', {})
     speccheck.run(ctx, report, 'C08', 'dns.json', MODULES, reviewed)
     key_tag(ctx, report)
+    from .. import rejections
+    rejections.check(ctx, report, 'C08.R6', 'dns')
     key_material(ctx, report)
     rsa_exponent_length(ctx, report)
+    txt_chunks(ctx, report)
     report.floor('C08.R1', 12, 'layout comparisons')
 
 
@@ -270,3 +273,56 @@ def rsa_exponent_length(ctx, report):
                                length, [c[:1] + c[2:] if c[0] == 'mpint' else c for c in comp.calls][:4], [c[:1] + c[2:] if c[0] == 'mpint' else c for c in want]))
     except (Unsupported, Raised) as e:
         report.add(rule, f.construct + '@tabulation', 'the RSA key composer left the subset the tabulation understands: %s' % e)
+
+
+def txt_chunks(ctx, report, rule='C08.R7'):
+    """DnsRecordTxt.compose evaluated (sa.miniexec) with a recording composer for texts of 0, 1, 254..257, 510..512, 600 and
+    1000 characters: the character-strings it writes are at most 255 octets each and their concatenation is the text"""
+    from ..miniexec import Evaluator, Obj, Raised, Unsupported
+    report.rule(rule, 'TXT data: character-strings of at most 255 octets whose concatenation is the whole text')
+    c = ctx.model.try_cls('DnsRecordTxt')
+    f = c.methods.get('compose') if c is not None else None
+    if f is None:
+        report.error('%s: DnsRecordTxt.compose vanished' % rule)
+        return
+    report.touch(f)
+
+    class Composer(Native):
+        def __init__(self):
+            self.strings = []
+
+        def compose_string(self, value, encoding, item_size):
+            self.strings.append((value, item_size))
+
+        @property
+        def composed_bytes(self):
+            return b''.join(bytes([len(v)]) + v.encode('ascii') for v, _ in self.strings)
+
+        composed = composed_bytes
+
+    def hook(n, ev):
+        if ast.unparse(n.func) == 'ComposerBinary':
+            return Composer()
+        return NotImplemented
+    try:
+        for n in (0, 1, 254, 255, 256, 257, 510, 511, 512, 600, 1000):
+            report.count(rule)
+            text = ''.join(chr(ord('a') + (i % 26)) for i in range(n))
+            comp_box = {}
+
+            def hook2(node, ev, box=comp_box):
+                r = hook(node, ev)
+                if isinstance(r, Composer):
+                    box['c'] = r
+                return r
+            Evaluator({'self': Obj(value=text)}, hook2, None).function(f.node)
+            strings = comp_box['c'].strings if 'c' in comp_box else []
+            joined = ''.join(v for v, _ in strings)
+            too_long = [len(v) for v, _ in strings if len(v) > 255]
+            if joined != text or too_long or any(sz != 1 for _, sz in strings) or (not strings):
+                what = 'loses %d character(s) (first difference at index %d)' % (len(text) - len(joined), next((i for i, (x, y) in enumerate(zip(joined, text)) if x != y), len(joined))) \
+                    if joined != text else ('writes a character-string of %s octets' % too_long if too_long else 'writes %r' % strings[:2])
+                report.add(rule, f.construct + '@chunks', 'a text of %d characters: the composer %s' % (n, what))
+                return
+    except (Unsupported, Raised) as e:
+        report.add(rule, f.construct + '@tabulation', 'DnsRecordTxt.compose left the subset the tabulation understands: %s' % e)
